@@ -12,18 +12,18 @@ var indents = []string{"", " ", "\t", "  ", "    ", "  ", "\t",
 	strings.Repeat(" ", 63), strings.Repeat(" ", 64), strings.Repeat(" ", 65), strings.Repeat("\t", 70), strings.Repeat(" \t", 40), strings.Repeat(" ", 300), "\n", "\r\n ", "x", "\u00a0", "--"}
 
 type scenGen struct {
-	r      *gen.R
-	g      *gen.G
-	sc     *Scenario
-	docs   []int // buffer indexes by role
-	pats   []int
-	merges []int
-	bad    []int
-	pairs  [][2]int // (document, variant derived from it)
-	nextID uint32
-	prop   string
-	faults map[string]int64
-	common []Opts // option values used by several calls through one shared *ApplyOptions
+	r         *gen.R
+	g         *gen.G
+	sc        *Scenario
+	docs      []int // buffer indexes by role
+	pats      []int
+	merges    []int
+	bad       []int
+	pairs     [][2]int // (document, variant derived from it)
+	nextID    uint32
+	prop      string
+	faults    map[string]int64
+	common    []Opts       // option values used by several calls through one shared *ApplyOptions
 	ensureBuf map[int]bool // patch buffers written for callers that set EnsurePathExistsOnAdd
 	slotBuf   map[int]int  // slot -> buffer it was last decoded from (generation-time view)
 }
@@ -182,6 +182,35 @@ func (sg *scenGen) genBufs(corruptPermille int) {
 		sg.pairs = append(sg.pairs, [2]int{a, b}, [2]int{a, b})
 		sg.faults["long_array_pair"]++
 	}
+	if r.P(45) {
+		// results of 64 KiB and more (size classes of buffers, "large object" paths of pools and
+		// caches): two documents of 66-140 KB made of many short members, a patch that touches one
+		// member, a small document and the merge patches between them
+		mk := func(tag string) string {
+			var sb strings.Builder
+			sb.WriteString(`{"kind":"` + tag + `","rows":[`)
+			n := 2200 + r.Intn(2400)
+			for i := 0; i < n; i++ {
+				if i > 0 {
+					sb.WriteByte(',')
+				}
+				fmt.Fprintf(&sb, `{"i":%d,"t":"%s-%d"}`, i, tag, i%97)
+			}
+			sb.WriteString(`],"end":true}`)
+			return sb.String()
+		}
+		a, b := sg.addBuf(mk("a")), sg.addBuf(mk("b"))
+		small := sg.addBuf(`{"kind":"s"}`)
+		sg.docs = append(sg.docs, a, b, a, b)
+		sg.pairs = append(sg.pairs, [2]int{small, a}, [2]int{a, b}, [2]int{small, b})
+		sg.pats = append(sg.pats, sg.addBuf(`[{"op":"replace","path":"/kind","value":"z"}]`), sg.addBuf(`[{"op":"add","path":"/rows/0/n","value":null},{"op":"test","path":"/end","value":true}]`))
+		sg.merges = append(sg.merges, sg.addBuf(`{"kind":"m","end":null}`), a)
+		sg.faults["results_over_64KiB"]++
+	}
+}
+
+func jsonQuoteName(n string) string {
+	return "\"" + strings.NewReplacer("\\", "\\\\", "\"", "\\\"").Replace(n) + "\""
 }
 
 func containsInt(s []int, x int) bool {
@@ -476,6 +505,53 @@ func GenConc(seed uint64, prop, target string) (*Scenario, map[string]int64) {
 			}
 		}
 		sg.sc.Tasks = append(sg.sc.Tasks, calls)
+	}
+	if r.P(70) {
+		// The same small program in every task, differing only in *which member* it addresses - among
+		// them names that need ~0/~1 escapes in a pointer.  Whatever is remembered per key, per path
+		// or per token (memos, interned strings, one-entry caches) is then used by several tasks at
+		// once with different keys.
+		names := []string{"a/b", "c~d", "e/f~g", "~1", "m~n", "plain", "x y", "/", "~"}
+		var doc strings.Builder
+		doc.WriteByte('{')
+		for i, n := range names {
+			if i > 0 {
+				doc.WriteByte(',')
+			}
+			fmt.Fprintf(&doc, "%s:%d", jsonQuoteName(n), i)
+		}
+		doc.WriteByte('}')
+		di := sg.addBuf(doc.String())
+		esc := strings.NewReplacer("~", "~0", "/", "~1")
+		op := r.Pick([]string{"replace", "test", "remove", "copy"})
+		for t := range sg.sc.Tasks {
+			k := (t + r.Intn(2)) % len(names)
+			var ptext string
+			switch op {
+			case "test":
+				ptext = fmt.Sprintf(`[{"op":"test","path":"/%s","value":%d}]`, esc.Replace(names[k]), k)
+			case "remove":
+				ptext = fmt.Sprintf(`[{"op":"remove","path":"/%s"}]`, esc.Replace(names[k]))
+			case "copy":
+				ptext = fmt.Sprintf(`[{"op":"copy","from":"/%s","path":"/%s"}]`, esc.Replace(names[k]), esc.Replace(names[(k+1)%len(names)]))
+			default:
+				ptext = fmt.Sprintf(`[{"op":"replace","path":"/%s","value":"t%d"}]`, esc.Replace(names[k]), t)
+			}
+			pi := sg.addBuf(ptext)
+			own := nshared + t
+			sg.nextID++
+			calls := []Call{{ID: sg.nextID, Fn: FnDecodePatch, Name: "DecodePatch", A: pi, Slot: own}}
+			for i, n := 0, 2+r.Intn(4); i < n; i++ {
+				sg.nextID++
+				calls = append(calls, Call{ID: sg.nextID, Fn: FnApply, Name: "Apply", A: di, Slot: own})
+			}
+			if r.Bool() {
+				sg.sc.Tasks[t] = append(calls, sg.sc.Tasks[t]...)
+			} else {
+				sg.sc.Tasks[t] = calls
+			}
+		}
+		sg.faults["tasks_differ_in_addressed_member"]++
 	}
 	if r.P(30) {
 		// Large inputs (more than 64 KiB together), one of them malformed, in private buffers the
